@@ -20,7 +20,10 @@ import (
 	"strings"
 )
 
-const vtracePath = "github.com/bytemare/secp256k1/zz_verif/vtrace"
+const (
+	vtracePath  = "github.com/bytemare/secp256k1/zz_verif/vtrace"
+	vshadowPath = "github.com/bytemare/secp256k1/zz_verif/vshadow"
+)
 
 var names []string
 
@@ -76,9 +79,14 @@ func main() {
 	out := flag.String("out", "", "output directory")
 	flag.Parse()
 
-	if *out == "" || *mode != "trace" {
-		fmt.Fprintln(os.Stderr, "usage: rewriter -mode trace -repo <dir> -out <dir>")
+	if *out == "" || (*mode != "trace" && *mode != "shadow") {
+		fmt.Fprintln(os.Stderr, "usage: rewriter -mode trace|shadow -repo <dir> -out <dir>")
 		os.Exit(2)
+	}
+
+	if *mode == "shadow" {
+		shadowMain(*repo, *out)
+		return
 	}
 
 	ovl := map[string]string{}
@@ -178,4 +186,109 @@ func main() {
 	}
 
 	fmt.Printf("instrumented %d functions, %d probes\n", funcs, len(names))
+}
+
+// ---------------------------------------------------------------------------------------------------------------------
+// shadow mode: a deferred pre/post-condition check at the entry of every Fiat primitive.
+
+var shadowStmt = map[string]string{
+	"Mul":            "defer vshadow.Bin(%d, \"Mul\", (*[4]uint64)(out1), [4]uint64(*arg1), [4]uint64(*arg2))",
+	"Add":            "defer vshadow.Bin(%d, \"Add\", (*[4]uint64)(out1), [4]uint64(*arg1), [4]uint64(*arg2))",
+	"Sub":            "defer vshadow.Bin(%d, \"Sub\", (*[4]uint64)(out1), [4]uint64(*arg1), [4]uint64(*arg2))",
+	"Square":         "defer vshadow.Un(%d, \"Square\", (*[4]uint64)(out1), [4]uint64(*arg1))",
+	"Opp":            "defer vshadow.Un(%d, \"Opp\", (*[4]uint64)(out1), [4]uint64(*arg1))",
+	"FromMontgomery": "defer vshadow.Un(%d, \"FromMontgomery\", (*[4]uint64)(out1), [4]uint64(*arg1))",
+	"ToMontgomery":   "defer vshadow.Un(%d, \"ToMontgomery\", (*[4]uint64)(out1), [4]uint64(*arg1))",
+	"Selectznz":      "defer vshadow.Sel(%d, out1, uint64(arg1), *arg2, *arg3)",
+	"Nonzero":        "defer vshadow.NZ(%d, out1, *arg1)",
+	"SetOne":         "defer vshadow.One(%d, (*[4]uint64)(out1))",
+}
+
+func parseStmt(src string) ast.Stmt {
+	f, err := parser.ParseFile(token.NewFileSet(), "", "package p\nfunc _() {\n"+src+"\n}\n", 0)
+	if err != nil {
+		panic(err)
+	}
+
+	return f.Decls[0].(*ast.FuncDecl).Body.List[0]
+}
+
+func shadowMain(repo, out string) {
+	ovl := map[string]string{}
+	total := 0
+
+	for pi, pkg := range []string{"internal/field", "internal/scalar"} {
+		dir := filepath.Join(repo, pkg)
+
+		ents, err := os.ReadDir(dir)
+		if err != nil {
+			fmt.Fprintln(os.Stderr, err)
+			os.Exit(1)
+		}
+
+		for _, e := range ents {
+			if !strings.HasPrefix(e.Name(), "secp256k1montgomery") || !strings.HasSuffix(e.Name(), ".go") || strings.HasSuffix(e.Name(), "_test.go") {
+				continue
+			}
+
+			fset := token.NewFileSet()
+			p := filepath.Join(dir, e.Name())
+
+			f, err := parser.ParseFile(fset, p, nil, parser.SkipObjectResolution)
+			if err != nil {
+				fmt.Fprintln(os.Stderr, err)
+				os.Exit(1)
+			}
+
+			n := 0
+
+			for _, d := range f.Decls {
+				fd, ok := d.(*ast.FuncDecl)
+				if !ok || fd.Body == nil || fd.Recv != nil {
+					continue
+				}
+
+				tmpl, ok := shadowStmt[fd.Name.Name]
+				if !ok {
+					continue
+				}
+
+				fd.Body.List = append([]ast.Stmt{parseStmt(fmt.Sprintf(tmpl, pi))}, fd.Body.List...)
+				n++
+			}
+
+			if n == 0 {
+				continue
+			}
+
+			total += n
+			imp := &ast.GenDecl{Tok: token.IMPORT, Specs: []ast.Spec{&ast.ImportSpec{Path: &ast.BasicLit{Kind: token.STRING, Value: strconv.Quote(vshadowPath)}}}}
+			f.Decls = append([]ast.Decl{imp}, f.Decls...)
+
+			dst := filepath.Join(out, strings.ReplaceAll(pkg, "/", "_")+"_"+e.Name())
+
+			w, err := os.Create(dst)
+			if err != nil {
+				fmt.Fprintln(os.Stderr, err)
+				os.Exit(1)
+			}
+
+			if err := printer.Fprint(w, token.NewFileSet(), f); err != nil {
+				fmt.Fprintln(os.Stderr, err)
+				os.Exit(1)
+			}
+
+			w.Close()
+
+			ovl[p] = dst
+		}
+	}
+
+	b, _ := json.MarshalIndent(map[string]any{"Replace": ovl}, "", " ")
+	if err := os.WriteFile(filepath.Join(out, "overlay.json"), b, 0o644); err != nil {
+		fmt.Fprintln(os.Stderr, err)
+		os.Exit(1)
+	}
+
+	fmt.Printf("shadowed %d primitives\n", total)
 }
